@@ -85,6 +85,17 @@ func isConstInt(v ssa.Value) (*big.Int, bool) {
 	return nil, false
 }
 
+func isSentinelError(g *ssa.Global) bool {
+	t, ok := g.Type().(*types.Pointer)
+	if !ok {
+		return false
+	}
+	if n, ok := t.Elem().(*types.Named); !ok || n.Obj().Name() != "error" || n.Obj().Pkg() != nil {
+		return false
+	}
+	return g.Name() == "EOF" || strings.HasPrefix(g.Name(), "Err") || strings.HasPrefix(g.Name(), "err")
+}
+
 func isSingleBit(b *big.Int) bool {
 	return b.Sign() > 0 && b.BitLen()-1 == int(b.TrailingZeroBits())
 }
@@ -384,6 +395,13 @@ func (e *Enc) instr(fr *Frame, b *ssa.BasicBlock, in ssa.Instruction, g string, 
 				e.setOp(fr, x, fmt.Sprintf("(- (- %s) 1)", o.v.T))
 			}
 		case token.MUL: // load
+			if g0, ok := x.X.(*ssa.Global); ok {
+				if cv, ok := e.w.constGlobal(g0); ok {
+					// package-level variable that is never assigned outside its initialiser
+					fr.ops[x] = opVal(e.constVal(cv))
+					return h
+				}
+			}
 			p := e.operand(fr, x.X)
 			a := p.a
 			if a != nil && len(a.path) == 0 {
@@ -422,6 +440,10 @@ func (e *Enc) instr(fr *Frame, b *ssa.BasicBlock, in ssa.Instruction, g string, 
 			// loading a pointer-to-array row etc.
 			e.setOp(fr, x, e.load(h, a))
 			v := fr.ops[x].v
+			if g0, ok := x.X.(*ssa.Global); ok && len(a.path) == 0 && isSentinelError(g0) {
+				// sentinel error variables (io.EOF, ErrXxx) are non-nil and never reassigned
+				e.assume(g, fmt.Sprintf("(distinct %s 0)", v.T))
+			}
 			if ra := e.d.rangeAssumption(x.Type(), v.T, 0); ra != "" {
 				e.assume(g, ra)
 			}
